@@ -542,43 +542,72 @@ func (a *factAnalysis) importLiteralExit(st *fstate, call *ast.CallExpr, idx int
 			return // bare returns of named results: not summarised
 		}
 		res := ast.Unparen(r.Results[idx])
-		match := false
+		fsr := g.localFactsAt(r)
+		match := true
+		var extra *Fact
+		var bound *bnd
+		if v := g.varOf(res); v != nil {
+			if b, ok := fsr.bind[v]; ok {
+				bound = &b
+			}
+		}
+		knows := func(k FactKind) bool {
+			return bound != nil && fsr.Has(func(fa *Fact) bool { return fa.Kind == k && fa.Call == bound.call && fa.Idx == bound.idx })
+		}
+		_, isCallRes := res.(*ast.CallExpr)
 		switch want {
-		case "nil":
-			if isNilIdent(g.Info, res) {
-				match = true
-			} else if v := g.varOf(res); v != nil {
-				// a variable: it may be nil - unless it is known non-nil here, the return
-				// cannot be excluded, and its facts must be part of the intersection
-				fs := g.localFactsAt(r)
-				if b, ok := fs.bind[v]; ok && fs.Has(func(fa *Fact) bool { return fa.Kind == FCallFail && fa.Call == b.call && fa.Idx == b.idx }) {
-					continue
+		case "nil", "nonnil":
+			isNilLit := isNilIdent(g.Info, res)
+			switch {
+			case isNilLit:
+				match = want == "nil"
+			case isCallRes:
+				// a constructed error is never nil; any other call may return either
+				k := g.CallKey(res.(*ast.CallExpr))
+				if k == "fmt.Errorf" || k == "errors.New" || strings.HasPrefix(k, "github.com/twitchtv/twirp.") || strings.HasPrefix(k, "spec/rpc.Wrap") {
+					match = want == "nonnil"
 				}
-				match = true
-			} else if _, isCall := res.(*ast.CallExpr); isCall {
-				if tv, ok := g.Info.Types[res]; ok && tv.Type != nil {
-					// a constructed error (fmt.Errorf, a wrapper): never nil
-					continue
+			case bound != nil:
+				if want == "nil" {
+					match = !knows(FCallFail)
+					extra = &Fact{Kind: FCallOK, Call: bound.call, Idx: bound.idx}
+				} else {
+					match = !knows(FCallOK)
+					extra = &Fact{Kind: FCallFail, Call: bound.call, Idx: bound.idx}
+				}
+			default:
+				if strings.HasPrefix(g.Prov(res), "global:") {
+					match = want == "nonnil" // a sentinel
 				}
 			}
-		case "true":
+		case "true", "false":
 			if v, ok := g.ConstVal(res); ok {
-				match = v == "true"
-			} else {
-				match = true
+				match = v == want
+			} else if bound != nil {
+				if want == "true" {
+					match = !knows(FFalse)
+					extra = &Fact{Kind: FTrue, Call: bound.call, Idx: bound.idx}
+				} else {
+					match = !knows(FTrue)
+					extra = &Fact{Kind: FFalse, Call: bound.call, Idx: bound.idx}
+				}
 			}
 		}
 		if !match {
 			continue
 		}
 		n++
-		fs := g.localFactsAt(r)
 		cur := map[string]*Fact{}
-		for _, fa := range fs.Facts {
+		for _, fa := range fsr.Facts {
 			if fa.Inherited || fa.Kind == FHeld {
 				continue
 			}
 			cur[fa.key] = fa
+		}
+		if extra != nil {
+			// the returned variable has the value the caller observed
+			extra.key = fmt.Sprintf("%s:%d:%d", kindNames[extra.Kind], extra.Call.Pos(), extra.Idx)
+			cur[extra.key] = extra
 		}
 		if common == nil {
 			common = cur
@@ -664,6 +693,7 @@ func (a *factAnalysis) addAtomFacts(st *fstate, at atom, cond ast.Expr) {
 			} else {
 				add(&Fact{Kind: FCallFail, Call: b.call, Idx: b.idx})
 				delete(st.facts, fmt.Sprintf("ok:%d:%d", b.call.Pos(), b.idx))
+				a.importLiteralExit(st, b.call, b.idx, "nonnil", add)
 			}
 		} else {
 			if isNil {
@@ -708,14 +738,17 @@ func (a *factAnalysis) addAtomFacts(st *fstate, at atom, cond ast.Expr) {
 				} else {
 					add(&Fact{Kind: FFalse, Call: b.call, Idx: b.idx})
 					delete(st.facts, fmt.Sprintf("true:%d:%d", b.call.Pos(), b.idx))
+					a.importLiteralExit(st, b.call, b.idx, "false", add)
 				}
 			}
 		}
 	case *ast.CallExpr:
 		if at.truth {
 			add(&Fact{Kind: FTrue, Call: x, Idx: -1})
+			a.importLiteralExit(st, x, 0, "true", add)
 		} else {
 			add(&Fact{Kind: FFalse, Call: x, Idx: -1})
+			a.importLiteralExit(st, x, 0, "false", add)
 		}
 	}
 	fa := &Fact{Kind: FCmp, Expr: e, Truth: at.truth}
